@@ -18,8 +18,8 @@ def _own_overlay(pid):
     properties that live in the same Go package are left out, so that work in progress on them
     cannot break this build (they are test files; nothing here depends on them)."""
     repl = {}
-    mine = re.compile(r"zz_verif_%s(_|\.)" % pid.lower())
-    other = re.compile(r"zz_verif_c\d\d")
+    mine = re.compile(r"zz_verif_(%s|agg)(_|\.)" % pid.lower())
+    other = re.compile(r"zz_verif_[a-z0-9]+")
     for root, _dirs, files in os.walk(vf.OVERLAY):
         for f in files:
             if f.endswith("~") or f.startswith("."):
